@@ -165,3 +165,15 @@ func fieldOf(err error) string {
 	}
 	return ""
 }
+
+// Raw appends case lines produced by another harness process.
+func (o *Out) Raw(lines string) {
+	for _, l := range strings.Split(lines, "\n") {
+		if l == "" || o.seen[l] {
+			continue
+		}
+		o.seen[l] = true
+		o.w.WriteString(l + "\n")
+		o.n++
+	}
+}
